@@ -584,3 +584,33 @@ def impl_lines_fs(case, res):
         ",".join(futs), ",".join(outs), "end" if ents["M"][0] == "done" else "live", loop,
         ",".join(ps), ",".join(q), res.get("nfiles", -1)))
     return lines
+
+
+# ------------------------------------------------------------------ per-call executor with cache_directory
+def gen_cstep_case(rng, max_calls=4, allow_fail=True):
+    c = gen_step_case(rng, max_calls=max_calls, allow_fail=allow_fail)
+    c["cache"] = True
+    return c
+
+
+def coq_expr_cx(case, res):
+    return coq_expr_x(case, project_fs(res))
+
+
+def impl_lines_cx(case, res):
+    return impl_lines_x(case, project_fs(res))
+
+
+def compare_noen_lines(il, coq_out, cut=None):
+    drop = lambda ln: ln if ln.startswith("F|") else ln.split("|", 1)[1]  # noqa
+    ml = coq_out.split(";")
+    if cut is not None:
+        il, ml = il[:cut + 1], ml[:cut + 1]
+    il = [drop(x) for x in il]
+    ml = [drop(x) for x in ml]
+    for k, (a, b) in enumerate(zip(il, ml)):
+        if a != b:
+            return {"kind": "diverge", "step": k, "impl": a, "model": b, "prefix": il[max(0, k - 6):k]}
+    if len(il) != len(ml):
+        return {"kind": "length", "impl": len(il), "model": len(ml), "impl_tail": il[-2:], "model_tail": ml[-2:]}
+    return None
